@@ -202,6 +202,14 @@ class Engine:
                 return s[:i]
         return s
 
+    def _derive_self_ty(self, rec):
+        fp = self._first_param_ty(rec)
+        if fp:
+            return last_seg(fp)
+        hdr = self.mirs[rec['mir']].headers[rec['name']]
+        m = re.search(r'\) -> (.*) \{$', hdr)
+        return last_seg(m.group(1)) if m else None
+
     def find(self, method, self_ty=None, file=None, trait=None, free=False):
         """Locate a kernel by source-level identity (never by line number)."""
         c = []
@@ -219,8 +227,7 @@ class Engine:
             if self_ty is not None:
                 st = r['self_ty']
                 if st is None:
-                    p = self._first_param_ty(r)
-                    st = last_seg(p) if p else None
+                    st = self._derive_self_ty(r)
                 if st != self_ty:
                     continue
             c.append(r)
@@ -248,8 +255,7 @@ class Engine:
                     continue
                 st = r['self_ty']
                 if st is None:
-                    fp = self._first_param_ty(r)
-                    st = last_seg(fp) if fp else None
+                    st = self._derive_self_ty(r)
                 if st == sty:
                     c.append(r)
             if len(c) == 1:
